@@ -39,7 +39,18 @@ impl<'a> Judge<'a> {
         ensure!(x.vec.iter().all(|v| v.is_finite()), "{:?}: Ok({}) but x = {:?} is not finite", s, k, x.vec);
         let bn = norm2(b);
         let den = if bn == 0.0 { 1.0 } else { bn };
-        let rel = norm2(&residual(self.d, &x.vec, b)) / den;
+        // the ratio is formed from vectors divided by max|b_i| first: ||b|| itself may exceed the f64 range
+        let rel = {
+            let r = residual(self.d, &x.vec, b);
+            let mb = norm_inf(b);
+            if mb == 0.0 || !bn.is_finite() && !mb.is_finite() {
+                norm2(&r) / den
+            } else {
+                let rs: Vec<f64> = r.iter().map(|v| v / mb).collect();
+                let bs: Vec<f64> = b.iter().map(|v| v / mb).collect();
+                norm2(&rs) / norm2(&bs)
+            }
+        };
         acc.worst("true_residual_over_tol_at_Ok", rel / tol, || format!("{:?} A={:?} b={:?} x0={:?} tol={:e} budget={}", s, self.d, b, x0, tol, budget));
         if rel <= tol * (1.0 + 1e-12) {
             return Ok(());
@@ -322,6 +333,52 @@ fn edge_of_range_space(ctx: &Ctx) {
     );
 }
 
+/// every 2x2 matrix over letters 309 decades apart (structurally empty columns included), right-hand sides up to the
+/// top of the range (||b|| itself overflows for the last one), guesses 0, b and (1.5e308, 0)
+fn extreme_2x2_space(ctx: &Ctx) {
+    let le = [0.0, 1.0, 1e-156, 1e153, -1e-160, 1e150];
+    ctx.lattice(
+        "extreme 2x2: all matrices over {0,1,1e-156,1e153,-1e-160,1e150} x b in {A(1,1), A(1,0), (1e-10,1e150), (1.5e308,1.5e308)} x guesses {0, (1.5e308,0), b} x tol 1e-8 x budgets {0,10} x 5 solvers",
+        pow(6, 4),
+        |idx| format!("{:?}", mat_from(idx, 2, &le)),
+        |idx, acc| {
+            let d = mat_from(idx, 2, &le);
+            let a = sparse_of(&d, 0);
+            let j = Judge { d: &d, a: &a, anorm: norm_inf_mat(&d) };
+            if (0..2).any(|c| d[0][c] == 0.0 && d[1][c] == 0.0) {
+                acc.hit("matrices with a structurally empty column");
+            }
+            let bs: Vec<Vec<f64>> = vec![matvec(&d, &[1.0, 1.0]), matvec(&d, &[1.0, 0.0]), vec![1e-10, 1e150], vec![1.5e308, 1.5e308]];
+            for b in bs.iter() {
+                if b.iter().any(|v| !v.is_finite()) {
+                    continue;
+                }
+                for x0 in [vec![0.0, 0.0], vec![1.5e308, 0.0], b.clone()].iter() {
+                    for &s in SOLVERS.iter() {
+                        for &budget in [0usize, 10].iter() {
+                            let tol = 1e-8;
+                            let key = || format!("{:?} extreme A={:?} b={:?} x0={:?} tol={:e} budget={}", s, d, b, x0, tol, budget);
+                            let mut local = Acc::new("t");
+                            let res = catch(|| j.run(s, b, x0, budget, tol, &mut local));
+                            for (k, v) in std::mem::take(&mut local.hits) {
+                                *acc.hits.entry(k).or_insert(0) += v;
+                            }
+                            if local.nontrivial > 0 {
+                                acc.nontriv("configurations with an Ok answer");
+                            }
+                            match res {
+                                Ok(Ok(())) => {}
+                                Ok(Err(e)) => acc.fail(idx, key(), e),
+                                Err(p) => acc.fail(idx, key(), format!("unexpected panic: {}", p)),
+                            }
+                        }
+                    }
+                }
+            }
+        },
+    );
+}
+
 fn main() {
     let ctx = Ctx::from_args("C08");
     ctx.level("exploration");
@@ -435,6 +492,7 @@ fn main() {
         );
     }
     edge_of_range_space(&ctx);
+    extreme_2x2_space(&ctx);
     scaled_family_space(&ctx, if ctx.quick() { &[2, 3, 5, 8, 13, 21] } else { &[2, 3, 4, 5, 6, 8, 10, 13, 16, 21, 27, 34, 47, 60] });
     if ctx.quick() {
         benign_space(&ctx, &[1, 2, 3, 5, 8, 13, 16, 21, 24, 32, 34, 40, 60]);
